@@ -6,7 +6,7 @@ from harness import lib_cross as L
 
 THEOREMS = 'Properties/C06.v'
 CLAIM = dict(
-    text='Coq theorems (Properties/C06.v, 18 theorems + 5 non-vacuity examples) about the small-step model Model/Cross.v of '
+    text='Coq theorems (Properties/C06.v, 19 theorems + 6 non-vacuity examples) about the small-step model Model/Cross.v of '
          'teneva.cross (whole driver: argument validation, _func Kronecker batches, both branches of _func_eval, cache, '
          '_maxvol wrapper, _iter index update, both pre-iteration passes, both half sweeps with their early-return '
          'branches, post-sweep block, _info_appr), for every dimension d >= 1, mode sizes, ranks, rank-growth window, '
@@ -35,6 +35,13 @@ CLAIM = dict(
          '[C06_terminates_nswp / _m / _m_nocache] the run returns within fuel > nswp sweeps, within fuel > (scale+1)*m '
          'sweeps when a positive budget m is given (with or without cache, whatever the objective answers), within '
          'fuel > m without cache. '
+         '[C06_e_only_never_returns] KNOWN FINDING C06/zero-objective-e-only-never-stops, proved on the model: with e as the '
+         'only stop argument (no budget / nswp / e_vld / callback / cache), an objective that always answers and an accuracy '
+         'value that never meets the criterion (the sentinel -1 of accuracy for the zero tensor; _info_appr needs info.e >= 0) '
+         'the run never returns, for every fuel; on the implementation the search exhibits the finite witness (identical '
+         'complete loop state at the end of three consecutive sweeps, info.e = -1, no stop pending) for the regression input '
+         'cross(zeros, rand([3,3,3], 1, seed=1), e=1e-6) and a family around it (d 2..4, with / without cache, e together '
+         'with m / nswp must stop normally); any other non-terminating combination is a violation. '
          'The model is tied to cross.py / utils.py by exact replay of the recorded _maxvol picks / erank / accuracy '
          'values on every run: same sequence of requests and batches, counters, stop reason, sweep count, cache '
          'contents, core shapes; plus fault enumeration (every budget, every None position, every callback sweep), a '
@@ -454,6 +461,120 @@ def gen_edges(tn, rng):
     return out
 
 
+# ------------------------------------------------------------------------------------------------ e-only runs that cycle
+FINDING_ZERO_E_ONLY = 'C06/zero-objective-e-only-never-stops'
+
+
+def cycle_probe(tn, spec, kmax=6):
+    """Runs cross with the stop arguments of spec (dict: ns r seed obj('zero'|'box') box e m nswp cache dr_min dr_max) and a
+    callback that snapshots the complete loop state at the end of every sweep (cores bitwise, Ir / Ic, info[e], pending
+    stop, increment of info[m], the batches requested during the sweep) and returns True at sweep kmax at the latest.
+    Returns dict(stopped=reason or None, cycle=k or None, all_zero=bool, ...).  cycle = k means: the state at the end of
+    sweeps k, k+1 and k+2 is identical, info[e] == -1 and no stop reason is pending - by determinism of the driver the run
+    then repeats that sweep forever (finite witness of non-termination)."""
+    import warnings
+    import time as _time
+    t0 = _time.time()
+    ns, d = spec['ns'], len(spec['ns'])
+    Y0 = tn.rand(ns, spec['r'], seed=spec['seed'])
+    box = spec.get('box')
+    vals, sweep_batches, snaps = [], [[]], []
+    ncall = [0]
+
+    def f(I):
+        ncall[0] += 1
+        if ncall[0] > 4000:
+            raise L.TooLong()
+        I = np.asarray(I)
+        sweep_batches[-1].append(I.tobytes())
+        if spec['obj'] == 'zero':
+            y = np.zeros(len(I))
+        else:
+            lo, hi = np.array(box[0]), np.array(box[1])
+            y = np.where(((I >= lo) & (I < hi)).all(axis=1), 1.0 + I.sum(axis=1), 0.0)
+        vals.append(bool((y == 0).all()))
+        return y
+
+    def cb(Y, info, opts):
+        byt = lambda xs: [None if x is None else np.asarray(x).tobytes() for x in xs]
+        snaps.append(dict(cores=[np.asarray(G).tobytes() for G in Y], Ir=byt(opts['Ir']), Ic=byt(opts['Ic']), e=info['e'],
+                          stop=info['stop'], m=info['m'], m_cache=info['m_cache'], batches=sweep_batches[-1]))
+        sweep_batches.append([])
+        if info['nswp'] > 400 or _time.time() - t0 > 30:      # a run that spins without ever calling the objective
+            raise L.TooLong()
+        return info['nswp'] >= kmax
+
+    info = {}
+    cache = {} if spec.get('cache') else None
+    res = dict(spec=spec, stopped=None, cycle=None, all_zero=None, exc=None)
+    try:
+        with warnings.catch_warnings():
+            warnings.simplefilter('ignore')
+            with np.errstate(all='ignore'):
+                tn.cross(f, Y0, m=spec.get('m'), e=spec.get('e'), nswp=spec.get('nswp'), dr_min=spec.get('dr_min', 1),
+                         dr_max=spec.get('dr_max', 1), info=info, cache=cache, cb=cb)
+    except L.TooLong:
+        res['exc'] = 'run did not stop: more than 4000 objective calls / 400 sweeps / 30 s'
+        snaps = []
+    except Exception as e:  # noqa
+        res['exc'] = repr(e)[:300]
+    res['all_zero'] = all(vals)
+    res['nswp'], res['m'], res['e'] = info.get('nswp'), info.get('m'), info.get('e')
+    res['stopped'] = info.get('stop')
+    same = lambda a, b: (a['cores'] == b['cores'] and a['Ir'] == b['Ir'] and a['Ic'] == b['Ic'] and a['batches'] == b['batches']
+                         and a['e'] == b['e'] == -1 and a['stop'] is None and b['stop'] is None)
+    for k in range(len(snaps) - 2):
+        if same(snaps[k], snaps[k + 1]) and same(snaps[k + 1], snaps[k + 2]) and \
+                snaps[k + 1]['m'] - snaps[k]['m'] == snaps[k + 2]['m'] - snaps[k + 1]['m'] and \
+                (cache is None or snaps[k + 1]['m_cache'] == snaps[k]['m_cache']):
+            res['cycle'] = k + 1
+            break
+    return res
+
+
+def cycle_family(tn, rng, deep):
+    """the regression input of the known finding + the family around it.  Failures: non-terminating e-only runs on an
+    objective that only ever answered zeros carry the finding key; ANY other run that cycles / does not stop by a documented
+    reason of its own (the probe's callback stop at sweep kmax does not count) is a plain violation."""
+    specs = [dict(ns=[3, 3, 3], r=1, seed=1, obj='zero', e=1e-6, cache=False, regression=True)]
+    for d in (2, 3, 4):
+        for cache in (False, True):
+            ns = [rng.randint(2, 4 if d < 4 else 3) for _ in range(d)]
+            specs.append(dict(ns=ns, r=rng.randint(1, 2), seed=rng.randrange(1000), obj='zero', e=rng.choice([1e-6, 1e-2]),
+                              cache=cache, dr_min=rng.choice([0, 1]), dr_max=1))
+            lo = [n - 1 for n in ns]        # a delta at the far corner: the sweeps started from a random Y0 rarely touch it
+            specs.append(dict(ns=ns, r=1, seed=rng.randrange(1000), obj='box', box=[lo, ns], e=1e-6, cache=cache))
+            # e together with another stop argument must stop normally
+            specs.append(dict(ns=ns, r=1, seed=rng.randrange(1000), obj='zero', e=1e-6, nswp=rng.choice([1, 3]), cache=cache))
+            specs.append(dict(ns=ns, r=1, seed=rng.randrange(1000), obj='zero', e=1e-6, m=rng.choice([5, 40, 200]), cache=cache))
+    out, n = [], 0
+    for sp in specs[:(len(specs) if deep else 17)]:
+        n += 1
+        e_only = sp.get('m') is None and sp.get('nswp') is None
+        # with m / nswp the run must end by a documented reason of its own: the probe never stops it (call cap only)
+        r = cycle_probe(tn, sp, kmax=6 if e_only else 10 ** 9)
+        if not e_only:
+            r['cycle'] = None
+        desc = dict(kind='cycle_probe', **sp)
+        if r['exc']:
+            out.append(dict(what='C06 e-only family: ' + r['exc'], input=desc))
+        elif r['cycle'] is not None:
+            what = (f"cross never returns: e is the only stop argument and the objective answered only zeros, so every sweep gives "
+                    f"the zero tensor, accuracy(Y, Yold) is the sentinel -1 and _info_appr needs info['e'] >= 0; the complete loop "
+                    f"state (cores bitwise, Ir / Ic, requested batches, info['e'] = -1, no stop pending) is identical at the end of "
+                    f"sweeps {r['cycle']}, {r['cycle'] + 1}, {r['cycle'] + 2}")
+            f = dict(what='C06: ' + what, input=desc, got=dict(nswp=r['nswp'], m=r['m'], e=r['e'], stop_by_probe=r['stopped']))
+            if e_only and r['all_zero'] and not sp.get('cache'):
+                f['finding_key'] = FINDING_ZERO_E_ONLY
+            out.append(f)
+        elif r['stopped'] == 'cb':
+            out.append(dict(what='C06 e-only family: no documented stop reason fired within 6 sweeps (stopped by the probe) and '
+                                 'no cycle was established', input=desc, got=dict(nswp=r['nswp'], m=r['m'], e=r['e'])))
+        elif r['stopped'] not in ('e', 'nswp', 'm', 'conv'):
+            out.append(dict(what='C06 e-only family: undocumented stop reason', input=desc, got=repr(r['stopped'])))
+    return out, n
+
+
 # ------------------------------------------------------------------------------------------------ search
 
 def oracle(tn, cfg, **run_kw):
@@ -691,6 +812,9 @@ def search(R, ctx, deep, hints):
             fails.append(f)
             if len(fails) >= 5:
                 break
+    cyc, ncyc = cycle_family(tn, rng, deep)
+    fails += cyc
+    n += ncyc
     R.search.append(dict(name='C06 oracle: recount from the instrumented objective, stop contract, result shape',
                          evaluations=n, failures=len(fails), deep=deep))
     return fails
@@ -701,6 +825,10 @@ def replay(data):
     p = data['payload']
     print(data['what'])
     cfg = p.get('input')
+    if isinstance(cfg, dict) and cfg.get('kind') == 'cycle_probe':
+        r = cycle_probe(tn, cfg, kmax=6 if (cfg.get('m') is None and cfg.get('nswp') is None) else 10 ** 9)
+        print('replayed:', {k: r[k] for k in ('stopped', 'cycle', 'all_zero', 'exc', 'nswp', 'm', 'e')})
+        return 1 if (r['cycle'] is not None or r['exc'] or r['stopped'] == 'cb') else 0
     if isinstance(cfg, dict) and 'ns' in cfg:
         cfg = dict(cfg)
         if cfg.get('cache') is not None:
